@@ -100,7 +100,7 @@ SPEC_ENTRY = {'title': 'Socket streams are loss-free and obey credit-based flow 
               ('C17_tx_credit_refuted',
                'Proofs/VsockProofs.v',
                'send_prefix_refuted_credit_underflow',
-               'code as found (before fix C17_F9): peer buffer shrunk below the bytes in flight: release ACCEPTS a payload with no credit left, debug panics'),
+               'code as found (before fix C17_F12): peer buffer shrunk below the bytes in flight: release ACCEPTS a payload with no credit left, debug panics'),
               ('C17_tx_credit_partial',
                'Proofs/VsockProofs.v',
                'send_prefix_partial',
